@@ -31,6 +31,7 @@ type Inserter struct {
 	asyncBlocks []asyncBlock
 	rowsCount   uint32
 	wg          sync.WaitGroup
+	mu          sync.Mutex // guards asyncBlocks and rowsCount, shared by the workers
 	errChan     chan error
 	blocks      <-chan *sorter.Block
 	numWorkers  int
@@ -84,7 +85,9 @@ func (i *Inserter) insertBlock() {
 			i.errChan <- err
 			return
 		}
+		i.mu.Lock()
 		i.rowsCount += uint32(blk.RowsCount)
+		i.mu.Unlock()
 
 		// write block index and add pk sums to table index
 		idx, err := objects.IndexBlockFromBytes(dec, hash, e, blk.Block, i.tbl.PK)
@@ -100,12 +103,14 @@ func (i *Inserter) insertBlock() {
 			return
 		}
 		i.logger.Info("index block", "blockSum", sum, "indexSum", blkIdxSum)
+		i.mu.Lock()
 		i.asyncBlocks = append(i.asyncBlocks, asyncBlock{
 			Offset: blk.Offset,
 			Sum:    sum,
 			IdxSum: blkIdxSum,
 			PK:     blk.PK,
 		})
+		i.mu.Unlock()
 		if i.pt != nil {
 			i.pt.Incr()
 		}
